@@ -342,6 +342,7 @@ pub fn layer2_script_case(seed: u64, i: u64) -> Case {
 
 pub fn run(o: Oracle, tier: Tier, seed: u64) -> i32 {
     let report = Report::new(pid(o), tier, seed, "model_checking");
+    unusual_first_use();
     let cl = Classes::new();
 
     // layer 3 first: constructed rare classes (cheap, most telling)
